@@ -27,6 +27,7 @@ ITEMS = [
     Item('DumperBase.process_resources', DM.sym_process_resources, [], DM.D + 'dumper_base.py::DumperBase.process_resources'),
     Item('DumperBase.row_counter', DM.sym_row_counter, [], DM.D + 'dumper_base.py::DumperBase.row_counter'),
     Item('FileDumper.rows_processor', DM.sym_rows_processor, [], DM.D + 'file_dumper.py::FileDumper.rows_processor'),
+    Item('FileDumper.dispatch', DM.sym_file_dumper_dispatch, [], DM.D + 'file_dumper.py::FileDumper.process_datapackage'),
     Item('driver.safe_process', BA.sym_safe_process, [], 'dataflows/base/datastream_processor.py::DataStreamProcessor.safe_process'),
     Item('delete_resource.drains', K10.sym_delete_resource, [], 'dataflows/processors/delete_resource.py::delete_resource.func'),
     Item('validate', K10.sym_validate, [], 'dataflows/processors/validate.py::validate.process_resource'),
